@@ -114,8 +114,8 @@ CHECKS = {
     ),
     "C16": dict(
         title="Contract upgrade is committee-gated, version-monotonic, data-preserving",
-        quick=dict(groups=[E("gate", "^TestC16Gate$", 4), E("window", "^TestC16Window$", 4), G("data", "^TestC16Data$", 150, 8)]),
-        thorough=dict(groups=[E("gate", "^TestC16Gate$", 4), E("window", "^TestC16Window$", 4), G("data", "^TestC16Data$", 3000, 16)]),
+        quick=dict(groups=[E("gate", "^TestC16Gate$", 4), E("window", "^TestC16Window$", 4), E("dumps", "^TestC16Dumps$"), G("data", "^TestC16Data$", 150, 8)]),
+        thorough=dict(groups=[E("gate", "^TestC16Gate$", 4), E("window", "^TestC16Window$", 4), E("dumps", "^TestC16Dumps$"), G("data", "^TestC16Data$", 3000, 16)]),
     ),
     "C03": dict(
         title="Every mutating contract method is inert without its required witnesses",
